@@ -236,3 +236,27 @@ def utf8_substitutions(data, limit=24):
                     return
                 produced += 1
                 yield 'utf8-in-text', data[:position] + snippet + data[position + width:]
+
+
+def field_sweeps(rng, data, fields, wide=96, narrow=24):
+    """Yield (name, variant): many in-range values written into the fixed-width numeric fields [(offset, width)] of an
+    accepted input, framing untouched.  Eight-byte fields get millisecond-scale values, in particular just above
+    2^k seconds for k = 28..33 where the second count has crossed a power of two and the millisecond count has not
+    (the windows in which float arithmetic on such values starts to round), four-byte fields random values and
+    powers of two with their neighbours."""
+    data = bytes(data)
+    for offset, width in fields:
+        values = []
+        if width == 8:
+            for exponent in range(28, 34):
+                low, high = (1 << exponent) * 1000, 1 << (exponent + 10)
+                values += [low, low + 1, high - 1] + [rng.randrange(low, high) for _ in range(max(1, wide // 8))]
+            values += [rng.randrange(0, 1 << 41) for _ in range(wide // 4)] + [1001, 1009, 64987, 999, 1000]
+        elif width == 4:
+            values = [rng.getrandbits(32) for _ in range(narrow // 2)]
+            for exponent in (8, 16, 24, 31):
+                values += [(1 << exponent) - 1, 1 << exponent, (1 << exponent) + 1]
+        else:
+            continue
+        for value in values:
+            yield 'field-sweep-%d' % width, data[:offset] + value.to_bytes(width, 'big') + data[offset + width:]
